@@ -13,7 +13,7 @@ def reg(prop):
 
 @reg('C01')
 def c01(tier):
-    return V.generic_pbt('C01', tier, n_quick=3000, n_thorough=100000, floor=100,
+    return V.generic_pbt('C01', tier, n_quick=30000, n_thorough=100000, floor=100,
                          assumptions=['frames are complete (declared shape) when saved; strings printable ASCII; names unique modulo case',
                                       'channel identity is positional (README submits unnamed channels)'])
 
@@ -23,35 +23,35 @@ API_ASSUME = ['points and channels are declared by name before frames are added 
 
 @reg('C05')
 def c05(tier):
-    return V.generic_pbt('C05', tier, n_quick=3000, n_thorough=100000, floor=100, assumptions=API_ASSUME)
+    return V.generic_pbt('C05', tier, n_quick=30000, n_thorough=100000, floor=100, assumptions=API_ASSUME)
 
 @reg('C06')
 def c06(tier):
-    return V.generic_pbt('C06', tier, n_quick=3000, n_thorough=100000, floor=100, assumptions=API_ASSUME)
+    return V.generic_pbt('C06', tier, n_quick=30000, n_thorough=100000, floor=100, assumptions=API_ASSUME)
 
 @reg('C08')
 def c08(tier):
-    return V.generic_pbt('C08', tier, n_quick=3000, n_thorough=100000, floor=100, assumptions=API_ASSUME +
+    return V.generic_pbt('C08', tier, n_quick=30000, n_thorough=100000, floor=100, assumptions=API_ASSUME +
                          ['only caller-owned objects are mutated (copies of stored frames obtained through accessors are shallow by design)'])
 
 @reg('C10')
 def c10(tier):
-    return V.generic_pbt('C10', tier, n_quick=3000, n_thorough=100000, floor=100, assumptions=API_ASSUME)
+    return V.generic_pbt('C10', tier, n_quick=30000, n_thorough=100000, floor=100, assumptions=API_ASSUME)
 
 @reg('C07')
 def c07(tier):
-    return V.generic_pbt('C07', tier, n_quick=4000, n_thorough=120000, floor=100, assumptions=API_ASSUME +
+    return V.generic_pbt('C07', tier, n_quick=40000, n_thorough=120000, floor=100, assumptions=API_ASSUME +
                          ['deviations the documentation does not mention (sub-frame count, undeclared columns, duplicated names inside one frame) may be accepted or refused; the history ends there'])
 
 @reg('C09')
 def c09(tier):
-    return V.generic_pbt('C09', tier, n_quick=5000, n_thorough=200000, floor=100, assumptions=API_ASSUME +
+    return V.generic_pbt('C09', tier, n_quick=40000, n_thorough=200000, floor=100, assumptions=API_ASSUME +
                          ['mandatory POINT/ANALOG parameters are only touched by the documented declaration calls; custom parameter names never collide with them',
                           'arrays are capped at 3000 elements (600 strings): larger shapes are exercised only as refused calls'])
 
 @reg('C11')
 def c11(tier):
-    return V.generic_pbt('C11', tier, n_quick=2500, n_thorough=60000, floor=100, assumptions=API_ASSUME +
+    return V.generic_pbt('C11', tier, n_quick=25000, n_thorough=60000, floor=100, assumptions=API_ASSUME +
                          ['name look-up is exact and case-sensitive (a padded query is a different name); expected results come from a list model built from the positional accessors'])
 
 FILE_ASSUME = ['files are little-endian, float format, header consistent with POINT/ANALOG parameters, POINT and ANALOG groups present',
@@ -60,11 +60,11 @@ FILE_ASSUME = ['files are little-endian, float format, header consistent with PO
 
 @reg('C02')
 def c02(tier):
-    return V.generic_pbt('C02', tier, n_quick=4000, n_thorough=150000, floor=100, assumptions=FILE_ASSUME)
+    return V.generic_pbt('C02', tier, n_quick=20000, n_thorough=150000, floor=100, assumptions=FILE_ASSUME)
 
 @reg('C04')
 def c04(tier):
-    return V.generic_pbt('C04', tier, n_quick=3000, n_thorough=100000, floor=100, assumptions=FILE_ASSUME +
+    return V.generic_pbt('C04', tier, n_quick=8000, n_thorough=100000, floor=100, assumptions=FILE_ASSUME +
                          ['3 generations (quick) / 4 (thorough); the three vendor files of the test suite are fixed seeds'])
 
 def c03_sweep_cases(tier):
@@ -94,7 +94,7 @@ def c03(tier):
     import shutil
     d, paths = c03_sweep_cases(tier)
     try:
-        return V.generic_pbt('C03', tier, n_quick=3000, n_thorough=60000, floor=500, assumptions=API_ASSUME + FILE_ASSUME[:2], extra_cases=paths,
+        return V.generic_pbt('C03', tier, n_quick=20000, n_thorough=60000, floor=500, assumptions=API_ASSUME + FILE_ASSUME[:2], extra_cases=paths,
                              extra_cov={'residue_sweep': 'all 512 residues of (parameter-section length mod 512) enumerated x %d object shape(s)' % (3 if tier == 'thorough' else 1)})
     finally:
         shutil.rmtree(d, ignore_errors=True)
@@ -147,7 +147,7 @@ def c12(tier):
     import shutil
     d, paths = c12_cases(tier)
     try:
-        return V.generic_pbt('C12', tier, n_quick=1500, n_thorough=40000, floor=200, assumptions=FILE_ASSUME, extra_cases=paths,
+        return V.generic_pbt('C12', tier, n_quick=6000, n_thorough=40000, floor=200, assumptions=FILE_ASSUME, extra_cases=paths,
                              extra_cov={'exhaustive': True,
                                         'exhaustive_note': 'all 2^8 byte values and all 2^16 int16 values in parameters, 2 x 256 x 7 float patterns (sign x exponent x mantissa class) in float parameters, point coordinates+residuals, analog samples and event times are enumerated completely; header words are boundary-dense (quick) / exhaustive for gap, key-label and first-key-block words (thorough); the rapidcheck part adds random files with raw 32-bit float patterns',
                                         'enumerated_cases': len(paths)})
@@ -183,7 +183,7 @@ def c16(tier):
     import shutil
     d, paths = c16_sweep_cases(tier)
     try:
-        return V.generic_pbt('C16', tier, n_quick=12000, n_thorough=400000, floor=500, extra_cases=paths,
+        return V.generic_pbt('C16', tier, n_quick=40000, n_thorough=400000, floor=500, extra_cases=paths,
                              assumptions=['work bound: at most 64 x file size + 2^20 read calls (hook H1, deterministic, no wall clock); single allocations above 1 GiB abort under ASan',
                                           'inputs whose header/parameters declare frame data far beyond the file size (known finding KF-D17) are recognised through hook H2, skipped and counted'],
                              extra_cov={'sweep_cases': len(paths), 'sweep': 'every truncation length and every offset x {0,1,0x7F,0x80,0xFF} of %d base files' % (3 if tier == 'thorough' else 2)})
@@ -192,7 +192,7 @@ def c16(tier):
 
 @reg('C13')
 def c13(tier):
-    return V.generic_pbt('C13', tier, n_quick=8000, n_thorough=300000, floor=500, assumptions=API_ASSUME +
+    return V.generic_pbt('C13', tier, n_quick=30000, n_thorough=300000, floor=500, assumptions=API_ASSUME +
                          ['monitors: AddressSanitizer (bounds, use-after-free, alloc/dealloc mismatch) and _GLIBCXX_ASSERTIONS (container indexing); LeakSanitizer and UBSan arithmetic are not part of the verdict',
                           'the checks of C01-C12, C14, C16, C17 run under the same monitors and report a memory error as a violation of the property being run'])
 
@@ -255,7 +255,7 @@ def c17(tier):
     import shutil
     d, paths = c17_cases(tier)
     try:
-        return V.generic_pbt('C17', tier, n_quick=400, n_thorough=6000, floor=40, extra_cases=paths, shards_quick=16,
+        return V.generic_pbt('C17', tier, n_quick=1500, n_thorough=6000, floor=40, extra_cases=paths, shards_quick=16,
                              assumptions=['"within capacity" is decided on the snapshot of the object by rules taken from the C3D format (one-byte lengths and dimensions, 16-bit integers and record offsets, 255 parameter blocks, POINT:FRAMES 16-bit signed)',
                                           'beyond a limit either a refusal by write() or a faithful round trip is accepted'],
                              extra_cov={'enumerated_cases': len(paths), 'limits': sorted(C17_LIMITS) + ['last-frame-65535']})
@@ -330,8 +330,8 @@ def c14(tier):
     except RuntimeError as e:
         res.broken = 'build failed: ' + str(e)[:2000]
         return V.finish('C14', tier, 'exploration', res, {'evaluations': 0, 'distinct_nontrivial': 0, 'rule': '', 'samples': []}, t0)
-    n = 60000 if tier == 'thorough' else 3000
-    shards = 16 if tier == 'thorough' else 8
+    n = 60000 if tier == 'thorough' else 12000
+    shards = 16
     m = V.run_pbt_shards('C14', bins, n, 100, shards, tier)
     env = {'VERIF_TIER': tier, 'VERIF_OPEN_FINDINGS': ' '.join(k['id'] for k in V.open_findings())}
     seen = set()
@@ -516,7 +516,7 @@ def c18(tier):
     except RuntimeError as e:
         res.broken = 'build failed: ' + str(e)[:2000]
         return V.finish('C18', tier, 'exploration', res, {'evaluations': 0, 'distinct_nontrivial': 0, 'rule': '', 'samples': []}, t0)
-    reps = 5000 if tier == 'thorough' else 240
+    reps = 5000 if tier == 'thorough' else 600
     cdir = os.path.join(V.WORK, 'c18-%d' % os.getpid())
     shutil.rmtree(cdir, ignore_errors=True); os.makedirs(os.path.join(cdir, 'corpus')); os.makedirs(os.path.join(cdir, 'reps'))
     subprocess.run([bins['pbt'], 'C14', '--n', '400' if tier == 'quick' else '3000', '--seed', str(V.seed() * 1000 + 700), '--emit', os.path.join(cdir, 'corpus'), '--work', V.WORK],
@@ -634,9 +634,9 @@ def c19(tier):
         return V.finish('C19', tier, 'exploration', res, {'evaluations': 0, 'distinct_nontrivial': 0, 'rule': '', 'samples': []}, t0)
     wd = os.path.join(V.WORK, 'c19-%d' % os.getpid())
     shutil.rmtree(wd, ignore_errors=True); os.makedirs(wd)
-    n = 20000 if tier == 'thorough' else 600
+    n = 20000 if tier == 'thorough' else 3000
     procs = []
-    for i, (gid, share) in enumerate((('C14', 0.4), ('C02', 0.3), ('C10', 0.15), ('C17', 0.05), ('C16', 0.1))):
+    for i, (gid, share) in enumerate((('C14', 0.45), ('C02', 0.35), ('C10', 0.15), ('C17', 0.05))):
         sd = os.path.join(wd, 'corpus-' + gid); os.makedirs(sd)
         procs.append(subprocess.Popen([bins['pbt'], gid, '--n', str(max(10, int(n * share))), '--seed', str(V.seed() * 1000 + 900 + i), '--emit', sd, '--work', V.WORK],
                                       stdout=subprocess.DEVNULL, stderr=subprocess.DEVNULL, env=V.base_env({'VERIF_TIER': tier})))
@@ -682,7 +682,7 @@ def c19(tier):
                 res.violations.append((pth, 'the same calls give different results in different builds (%s): %s' % (', '.join('%s=%s' % (nm, dg[:8]) for nm, dg in zip(names, digs)), diff)))
     shutil.rmtree(wd, ignore_errors=True)
     cov = {'evaluations': compared, 'distinct_nontrivial': nontrivial, 'configurations': names,
-           'rule': 'one evaluation = one frozen case (API script or generated file + load, from the C01-C04/C10/C16/C17 generators, plus the vendor files) replayed by all 6 CMake builds; compared: outcome class of every call, full snapshot after every call (floats as bit patterns) and the bytes of the finally saved file; non-trivial = case that loads a file or uses a fractional frame rate; distinct by case text',
+           'rule': 'one evaluation = one frozen case (API script or generated file + load, from the C01-C04/C10/C17 generators, plus the vendor files) replayed by all 6 CMake builds; compared: outcome class of every call, full snapshot after every call (floats as bit patterns) and the bytes of the finally saved file; non-trivial = case that loads a file or uses a fractional frame rate; distinct by case text',
            'samples': samples or ['(none)'],
            'engine': 'project CMakeLists.txt, CMAKE_BUILD_TYPE in {Debug,RelWithDebInfo,Release} x BUILD_SHARED_LIBS in {ON,OFF}, g++; cross-build differential on traces'}
     return V.finish('C19', tier, 'exploration', res, cov, t0, floor=50,
